@@ -54,6 +54,15 @@ class Ctx:
         self.work = os.path.join(OUT, "work", "%s-%s-%d" % (prop, tier, os.getpid()))
         shutil.rmtree(self.work, ignore_errors=True)
         os.makedirs(self.work, exist_ok=True)
+        # work directories of runs that ended inconclusively are kept for inspection: drop them after two hours
+        try:
+            wroot = os.path.dirname(self.work)
+            for d in os.listdir(wroot):
+                pth = os.path.join(wroot, d)
+                if pth != self.work and time.time() - os.path.getmtime(pth) > 7200:
+                    shutil.rmtree(pth, ignore_errors=True)
+        except OSError:
+            pass
         os.makedirs(os.path.join(OUT, "replay"), exist_ok=True)
         self.states = 0
         self.transitions = 0
